@@ -107,10 +107,27 @@ func (e *Enc) runHooks(when string, ci ssa.CallInstruction, args []Term, results
 	}
 	name := e.callName(ci.Common())
 	ord := e.ordCache[ci.(ssa.Instruction)]
+	return e.runHooksNamed(when, name, ord, ci, args, results)
+}
+
+type posser interface{ Pos() token.Pos }
+
+func (e *Enc) runHooksNamed(when, name string, ord int, at posser, args []Term, results []Term) error {
+	if e.fc == nil {
+		return nil
+	}
+	ci, _ := at.(ssa.CallInstruction)
 	mkEnv := func() *specEnv {
 		se := e.specEnv(e.entry, e.cur, nil)
-		for i, a := range args {
-			se.binds[fmt.Sprintf("arg%d", i)] = specVal{t: a, typ: e.argType(ci.Common(), i)}
+		if ci != nil {
+			for i, a := range args {
+				se.binds[fmt.Sprintf("arg%d", i)] = specVal{t: a, typ: e.argType(ci.Common(), i)}
+			}
+			if c := ci.Common(); !c.IsInvoke() {
+				if _, known := e.vals[c.Value]; known {
+					se.binds["callee"] = specVal{t: e.vals[c.Value], typ: c.Value.Type()}
+				}
+			}
 		}
 		for i, r := range results {
 			se.binds[fmt.Sprintf("ret%d", i)] = specVal{t: r}
@@ -124,41 +141,8 @@ func (e *Enc) runHooks(when string, ci ssa.CallInstruction, args []Term, results
 		e.hookHit[fmt.Sprintf("ghost#%d", hi)] = true
 		for _, st := range h.Stmts {
 			se := mkEnv()
-			switch st.Kind {
-			case "assert":
-				t, err := se.evalBool(st.Value)
-				if err != nil {
-					return fmt.Errorf("%s:%d: ghost assert: %v", e.fc.File, st.Line, err)
-				}
-				e.oblige("PROTO", st.Label, st.Props, t, "ghost assertion "+when+" call "+name+": "+st.Text, ci.Pos())
-			case "assign":
-				g, ok := e.prog.cs.Ghosts[st.Target]
-				if !ok {
-					return fmt.Errorf("%s:%d: unknown ghost variable %s", e.fc.File, st.Line, st.Target)
-				}
-				srt, err := ghostSort(g.Type)
-				if err != nil {
-					return err
-				}
-				v, err := se.eval(st.Value)
-				if err != nil {
-					return fmt.Errorf("%s:%d: ghost assign: %v", e.fc.File, st.Line, err)
-				}
-				if st.Index != nil {
-					iv, err := se.eval(st.Index)
-					if err != nil {
-						return err
-					}
-					old := e.lookup(e.cur, "G$"+st.Target, srt)
-					e.set(e.cur, "G$"+st.Target, Store(old, iv.t, v.t))
-				} else {
-					vt := v.t
-					if srt == SReal {
-						vt = ToReal(vt)
-					}
-					e.lookup(e.cur, "G$"+st.Target, srt)
-					e.set(e.cur, "G$"+st.Target, vt)
-				}
+			if err := e.execGhostStmt(se, st, "ghost assertion "+when+" call "+name, at.Pos()); err != nil {
+				return err
 			}
 		}
 	}
@@ -172,7 +156,47 @@ func (e *Enc) runHooks(when string, ci ssa.CallInstruction, args []Term, results
 		if err != nil {
 			return fmt.Errorf("%s:%d: assert: %v", a.Clause.File, a.Clause.Line, err)
 		}
-		e.oblige("assert", a.Clause.Label, a.Clause.Props, t, "assert "+when+" call "+name+": "+a.Clause.Text, ci.Pos())
+		e.oblige("assert", a.Clause.Label, a.Clause.Props, t, "assert "+when+" call "+name+": "+a.Clause.Text, at.Pos())
+	}
+	return nil
+}
+
+func (e *Enc) execGhostStmt(se *specEnv, st GhostStmt, what string, pos token.Pos) error {
+	switch st.Kind {
+	case "assert":
+		t, err := se.evalBool(st.Value)
+		if err != nil {
+			return fmt.Errorf("%s:%d: ghost assert: %v", e.fc.File, st.Line, err)
+		}
+		e.oblige("PROTO", st.Label, st.Props, t, what+": "+st.Text, pos)
+	case "assign":
+		g, ok := e.prog.cs.Ghosts[st.Target]
+		if !ok {
+			return fmt.Errorf("%s:%d: unknown ghost variable %s", e.fc.File, st.Line, st.Target)
+		}
+		srt, err := ghostSort(g.Type)
+		if err != nil {
+			return err
+		}
+		v, err := se.eval(st.Value)
+		if err != nil {
+			return fmt.Errorf("%s:%d: ghost assign: %v", e.fc.File, st.Line, err)
+		}
+		if st.Index != nil {
+			iv, err := se.eval(st.Index)
+			if err != nil {
+				return err
+			}
+			old := e.lookup(e.cur, "G$"+st.Target, srt)
+			e.set(e.cur, "G$"+st.Target, Store(old, iv.t, v.t))
+		} else {
+			vt := v.t
+			if srt == SReal {
+				vt = ToReal(vt)
+			}
+			e.lookup(e.cur, "G$"+st.Target, srt)
+			e.set(e.cur, "G$"+st.Target, vt)
+		}
 	}
 	return nil
 }
@@ -369,7 +393,7 @@ func (e *Enc) applyContract(ci ssa.CallInstruction, fc *FuncContract, fn *ssa.Fu
 			}
 			for i, fv := range fn.FreeVars {
 				if i < len(binds) {
-					se.binds[fv.Name()] = specVal{t: binds[i], typ: fv.Type()}
+					se.binds[fv.Name()] = specVal{t: binds[i], typ: fv.Type(), cell: true}
 				}
 			}
 			if results != nil {
@@ -767,8 +791,21 @@ func (e *Enc) checkExit() error {
 			results = append(results, rc)
 		}
 		e.blockGuard, e.extra, e.curGuard = exitG, nil, exitG
-		e.cur = exitState
+		e.cur = e.copyState(exitState)
+		exitState = e.cur
 		if fc != nil {
+			for hi, h := range fc.Hooks {
+				if h.When != "exit" {
+					continue
+				}
+				e.hookHit[fmt.Sprintf("ghost#%d", hi)] = true
+				for _, st := range h.Stmts {
+					se := e.specEnv(e.entry, e.cur, results)
+					if err := e.execGhostStmt(se, st, "ghost assertion at exit", e.fn.Pos()); err != nil {
+						return err
+					}
+				}
+			}
 			se := e.specEnv(e.entry, exitState, results)
 			if results == nil {
 				se = e.specEnv(e.entry, exitState, []Term{})
@@ -919,6 +956,9 @@ func (e *Enc) checkFrame(exit *State, se *specEnv) error {
 
 func (e *Enc) execMakeClosure(x *ssa.MakeClosure) error {
 	fn := x.Fn.(*ssa.Function)
+	if err := e.runHooksNamed("before", "closure:"+fn.Name(), 0, x, nil, nil); err != nil {
+		return err
+	}
 	id := e.fresh("clo", SInt)
 	alloc := e.lookup(e.cur, "alloc", SInt)
 	e.sc.Assert(App(SBool, ">", id, alloc))
@@ -938,7 +978,7 @@ func (e *Enc) execMakeClosure(x *ssa.MakeClosure) error {
 	if fc := e.prog.contractOf(fn); fc != nil && len(fc.Invs) > 0 {
 		se := &specEnv{e: e, old: e.cur, cur: e.cur, binds: map[string]specVal{}, noLocal: true, pkg: fn.Pkg.Pkg}
 		for i, fv := range fn.FreeVars {
-			se.binds[fv.Name()] = specVal{t: binds[i], typ: fv.Type()}
+			se.binds[fv.Name()] = specVal{t: binds[i], typ: fv.Type(), cell: true}
 		}
 		for k, cl := range fc.Invs {
 			t, err := se.evalBool(cl.Expr)
@@ -974,7 +1014,7 @@ func (e *Enc) execGo(x *ssa.Go) error {
 			}
 			for i, fv := range fn.FreeVars {
 				if i < len(binds) {
-					se.binds[fv.Name()] = specVal{t: binds[i], typ: fv.Type()}
+					se.binds[fv.Name()] = specVal{t: binds[i], typ: fv.Type(), cell: true}
 				}
 			}
 			for k, cl := range fc.Requires {
@@ -1006,53 +1046,87 @@ func (e *Enc) callWrites(li *loopInfo, ci ssa.CallInstruction, ws writeSets) boo
 			return false
 		}
 	}
+	if b, ok := c.Value.(*ssa.Builtin); ok && !c.IsInvoke() {
+		switch b.Name() {
+		case "append":
+			// writes only a freshly allocated backing array
+			if sl, ok := c.Args[0].Type().Underlying().(*types.Slice); ok {
+				ws.get("E$"+e.tr.typeID(sl.Elem()), ArraySort(SInt, ArraySort(SInt, e.tr.sortOf(sl.Elem()))))
+			}
+			return false
+		case "len", "cap", "min", "max", "print", "println", "recover", "panic":
+			return false
+		}
+	}
 	names, all := e.callModifies(ci)
 	if all {
 		return true
 	}
-	// precise targets when the callee has a contract and every argument is loop-invariant
-	if fn := c.StaticCallee(); fn != nil && !c.IsInvoke() {
-		if fc := e.prog.contractOf(fn); fc != nil && !fc.ModAll {
-			inv := true
-			var args []Term
-			for _, a := range c.Args {
-				if !e.definedOutside(li, a) {
-					inv = false
-					break
-				}
-				args = append(args, e.val(a))
+	// precise targets when the callee has a contract / fnspec and every argument is loop-invariant
+	var fc *FuncContract
+	var fn *ssa.Function
+	if c.IsInvoke() {
+		fc = nil
+	} else if f := c.StaticCallee(); f != nil {
+		fn = f
+		fc = e.prog.contractOf(f)
+		if _, isClo := c.Value.(*ssa.MakeClosure); isClo {
+			fc = nil
+		}
+	} else if e.fc != nil {
+		name := e.dynName(c.Value)
+		for _, d := range e.fc.DynCalls {
+			if d.Name == name {
+				fc = e.prog.cs.FnSpecs[d.Spec]
 			}
-			if mc, ok := c.Value.(*ssa.MakeClosure); ok {
-				_ = mc
+		}
+	}
+	if fc != nil && !fc.ModAll {
+		inv := true
+		var args []Term
+		for _, a := range c.Args {
+			if !e.definedOutside(li, a) {
 				inv = false
+				break
 			}
-			if inv {
-				se := &specEnv{e: e, old: e.cur, cur: e.cur, binds: map[string]specVal{}, noLocal: true, pkg: fn.Pkg.Pkg}
+			args = append(args, e.val(a))
+		}
+		if inv {
+			se := &specEnv{e: e, old: e.cur, cur: e.cur, binds: map[string]specVal{}, noLocal: true}
+			if fn != nil {
+				se.pkg = fn.Pkg.Pkg
 				for i, p := range fn.Params {
 					if i < len(args) {
 						se.binds[p.Name()] = specVal{t: args[i], typ: p.Type()}
 					}
 				}
-				okAll := true
-				var tgts []modTarget
-				for _, m := range fc.Modifies {
-					ts, err := se.modTargets(m)
-					if err != nil {
-						okAll = false
-						break
+			} else {
+				se.pkg = e.prog.typesPkg(fc.PkgPath)
+				for i, pn := range fc.Params {
+					if i < len(args) {
+						se.binds[pn] = specVal{t: args[i], typ: e.prog.resolveType(fc.PkgPath, fc.ParamTypes[i])}
 					}
-					tgts = append(tgts, ts...)
 				}
-				if okAll {
-					for _, t := range tgts {
-						if t.whole {
-							ws.whole(t.heap, t.sort)
-						} else {
-							ws.addr(t.heap, t.sort, t.index)
-						}
+			}
+			okAll := true
+			var tgts []modTarget
+			for _, m := range fc.Modifies {
+				ts, err := se.modTargets(m)
+				if err != nil {
+					okAll = false
+					break
+				}
+				tgts = append(tgts, ts...)
+			}
+			if okAll {
+				for _, t := range tgts {
+					if t.whole {
+						ws.whole(t.heap, t.sort)
+					} else {
+						ws.addr(t.heap, t.sort, t.index)
 					}
-					return false
 				}
+				return false
 			}
 		}
 	}
@@ -1124,7 +1198,7 @@ func (e *Enc) contractModNames(fc *FuncContract, fn *ssa.Function, c *ssa.CallCo
 			}
 		}
 		for _, p := range fn.FreeVars {
-			se.binds[p.Name()] = specVal{t: e.tr.zeroOfSort(e.tr.sortOf(p.Type()), p.Type()), typ: p.Type()}
+			se.binds[p.Name()] = specVal{t: e.tr.zeroOfSort(e.tr.sortOf(p.Type()), p.Type()), typ: p.Type(), cell: true}
 		}
 	} else {
 		se.pkg = e.prog.typesPkg(fc.PkgPath)
